@@ -224,15 +224,17 @@ theorem getLast?_append_ne {α : Type} (a b : List α) (h : b ≠ []) :
   | some v => rfl
   | none => exact absurd (List.getLast?_eq_none_iff.mp hb) h
 
-theorem walk_mirror (b : Backend) (t : Tree) (nin : Path) (hok : InOk b t nin)
-    (hnn : normalize nin = nin) (s : Path) (hs : s ∈ walk b t nin) :
-    ∃ rel, rstem b (srcBase nin) ++ rel ∈ fileKeys t ∧ rel.all Comp.isNormal = true ∧
+/-- one entry of the walk: the yielded path is the mirrored source of exactly that key -/
+theorem walkEntry_spec (b : Backend) (t : Tree) (nin : Path) (hok : InOk b t nin)
+    (hnn : normalize nin = nin) (hnin : b.fsys = true → nin ≠ [])
+    (ke : Path × Entry) (hke : ke ∈ t) (s : Path) (h : walkEntry b nin ke = some s) :
+    ∃ rel, rstem b (srcBase nin) ++ rel = ke.1 ∧ ke.1 ∈ fileKeys t ∧
+      rel.all Comp.isNormal = true ∧
       normalize s = srcBase nin ++ rel ∧ srcBase nin ++ rel ≠ [] ∧
       isLuaPath s = isLuaPath (srcBase nin ++ rel) := by
-  unfold walk at hs
+  unfold walkEntry at h
   cases hb : b.fsys
-  · simp only [hb, Bool.false_eq_true, if_false, List.mem_filterMap] at hs
-    obtain ⟨ke, hke, h⟩ := hs
+  · simp only [hb, Bool.false_eq_true, if_false] at h
     obtain ⟨hfile, hnk, hk0⟩ := hok.files hb ke hke
     rw [hnk, hnn] at h
     have hA : rstem b (srcBase nin) = srcBase nin := by rw [rstem_mem b _ hb, hok.sbfix]
@@ -252,13 +254,11 @@ theorem walk_mirror (b : Backend) (t : Tree) (nin : Path) (hok : InOk b t nin)
         have := hok.rels ke.1 hmem (by rw [hA]; exact ⟨rel, hrel⟩)
         rw [hA, ← hrel] at this
         simpa using this
-      refine ⟨rel, by rw [hA, hrel]; exact hmem, hn, ?_, by rw [hrel]; exact hk0, by rw [hrel]⟩
+      refine ⟨rel, by rw [hA, hrel], hmem, hn, ?_, by rw [hrel]; exact hk0, by rw [hrel]⟩
       rw [hnk, hrel]
     · cases h
-  · by_cases hnin : nin = []
-    · simp [hb, hnin] at hs
-    simp only [hb, if_true, hnin, if_false, List.mem_filterMap] at hs
-    obtain ⟨ke, hke, h⟩ := hs
+  · have hnin := hnin hb
+    simp only [hb, if_true] at h
     have hAne := hok.anz hb
     rw [resolve_eq_rstem b hb nin hok.sbfix hAne hnin] at h
     split at h
@@ -283,7 +283,7 @@ theorem walk_mirror (b : Backend) (t : Tree) (nin : Path) (hok : InOk b t nin)
           rw [e, List.append_nil] at hrel
           rw [hrel]; exact hmem
         have hsb : srcBase nin = [] := by simp [srcBase, hdot]
-        refine ⟨rel, by rw [hrel]; exact hmem, hn, ?_, by simpa [hsb] using hrel0, ?_⟩
+        refine ⟨rel, hrel, hmem, hn, ?_, by simpa [hsb] using hrel0, ?_⟩
         · rw [hsb, hdot, List.nil_append]
           have hs' : stem ([Comp.cur] ++ rel) = rel := by
             rw [stem_append _ rel hn]; simp [stem, normStep]
@@ -295,9 +295,26 @@ theorem walk_mirror (b : Backend) (t : Tree) (nin : Path) (hok : InOk b t nin)
         rw [hsb]
         have hfix := hok.sbfix
         rw [hsb] at hfix
-        refine ⟨rel, by rw [← hsb, hrel]; exact hmem, hn, ?_, by simp [hnin], rfl⟩
+        refine ⟨rel, by rw [← hsb]; exact hrel, hmem, hn, ?_, by simp [hnin], rfl⟩
         exact normalize_base_append nin rel hfix hn (by simp [hnin])
     · cases h
+
+theorem walk_mirror (b : Backend) (t : Tree) (nin : Path) (hok : InOk b t nin)
+    (hnn : normalize nin = nin) (s : Path) (hs : s ∈ walk b t nin) :
+    ∃ rel, rstem b (srcBase nin) ++ rel ∈ fileKeys t ∧ rel.all Comp.isNormal = true ∧
+      normalize s = srcBase nin ++ rel ∧ srcBase nin ++ rel ≠ [] ∧
+      isLuaPath s = isLuaPath (srcBase nin ++ rel) := by
+  unfold walk at hs
+  by_cases hc : (b.fsys && decide (nin = [])) = true
+  · simp [hc] at hs
+  · simp only [hc, if_false, List.mem_filterMap, Bool.false_eq_true] at hs
+    obtain ⟨ke, hke, h⟩ := hs
+    have hnin : b.fsys = true → nin ≠ [] := by
+      intro hb e
+      apply hc
+      simp [hb, e]
+    obtain ⟨rel, h1, h2, h3, h4, h5, h6⟩ := walkEntry_spec b t nin hok hnn hnin ke hke s h
+    exact ⟨rel, by rw [h1]; exact h2, h3, h4, h5, h6⟩
 
 theorem join_normal (out rel : Path) (h : rel.all Comp.isNormal = true) : join out rel = out ++ rel := by
   cases rel with
@@ -494,5 +511,163 @@ theorem bases_of_inOk (b : Backend) (t : Tree) (nin ob B : Path) (hok : InOk b t
   · rw [rstem_mem b _ hb, hok.sbfix]; exact hne
   · have := hok.anz hb
     simp [this]
+
+
+/-! ### collecting on a pruned tree = filtering the collected work list -/
+
+/-- the tree without the entries at the locations `D` -/
+def pruneTree (t : Tree) (D : List Path) : Tree := t.filter (fun ke => !D.contains ke.1)
+
+theorem pruneTree_get (t : Tree) (D : List Path) (q : Path) :
+    (pruneTree t D).get q = if D.contains q then none else t.get q := by
+  induction t with
+  | nil => simp [pruneTree, Tree.get]
+  | cons hd tl ih =>
+    obtain ⟨k, e⟩ := hd
+    unfold pruneTree at ih ⊢
+    by_cases hk : D.contains k = true
+    · simp only [List.filter_cons, hk, Bool.not_true, Bool.false_eq_true, if_false, Tree.get]
+      rw [ih]
+      by_cases hkq : k = q
+      · subst hkq; simp only [hk, if_true]
+      · simp only [hkq, if_false]
+    · simp only [Bool.not_eq_true] at hk
+      simp only [List.filter_cons, hk, Bool.not_false, if_true, Tree.get]
+      rw [ih]
+      by_cases hkq : k = q
+      · subst hkq; simp only [hk, Bool.false_eq_true, if_false, if_true]
+      · simp only [hkq, if_false]
+
+theorem pruneTree_toStore (t : Tree) (D : List Path) :
+    (pruneTree t D).toStore = eraseStore t.toStore D := by
+  funext q
+  simp [Tree.toStore, eraseStore, pruneTree_get]
+
+theorem filterMap_congr' {α β : Type} (f g : α → Option β) (l : List α)
+    (h : ∀ x ∈ l, f x = g x) : l.filterMap f = l.filterMap g := by
+  induction l with
+  | nil => rfl
+  | cons x l ih =>
+    simp only [List.filterMap_cons, h x List.mem_cons_self]
+    rw [ih (fun y hy => h y (List.mem_cons_of_mem _ hy))]
+
+/-- the walk of the pruned tree is the walk of the tree without the sources located in `D` -/
+theorem collectWorkRes_prune (b : Backend) (t : Tree) (nin : Path) (D : List Path)
+    (hok : InOk b t nin) (hnn : normalize nin = nin)
+    (hsrc : ∀ rel, rel.all Comp.isNormal = true → srcBase nin ++ rel ≠ [] →
+      resolve b (srcBase nin ++ rel) = rstem b (srcBase nin) ++ rel) :
+    collectWorkRes b (pruneTree t D) nin =
+      (collectWorkRes b t nin).filter
+        (fun s => !D.contains (resolve b (normalize (normalize s)))) := by
+  unfold collectWorkRes walk
+  by_cases hc : (b.fsys && decide (nin = [])) = true
+  · simp [hc]
+  · simp only [hc, if_false, Bool.false_eq_true]
+    have hnin : b.fsys = true → nin ≠ [] := by
+      intro hb e; apply hc; simp [hb, e]
+    have key : (pruneTree t D).filterMap (walkEntry b nin) =
+        (t.filterMap (walkEntry b nin)).filter
+          (fun s => !D.contains (resolve b (normalize (normalize s)))) := by
+      unfold pruneTree
+      rw [List.filterMap_filter, List.filter_filterMap]
+      apply filterMap_congr'
+      intro ke hke
+      cases hf : walkEntry b nin ke with
+      | none => simp
+      | some s =>
+        obtain ⟨rel, h1, _, hn, h4, h5, _⟩ := walkEntry_spec b t nin hok hnn hnin ke hke s hf
+        have hloc : resolve b (normalize (normalize s)) = ke.1 := by
+          rw [h4, normalize_base_append _ rel hok.sbfix hn h5, hsrc rel hn h5, h1]
+        simp only [Option.filter, hloc]
+    rw [key, List.filter_filter, List.filter_filter]
+    apply List.filter_congr
+    intro s _
+    exact Bool.and_comm _ _
+
+theorem addSource_filter (q : Path → Bool) (acc : List Item) (path : Path) (o : Option Path) :
+    (addSourceIfMissing acc path o).filter (fun it => q it.source) =
+      if q (normalize path) then addSourceIfMissing (acc.filter (fun it => q it.source)) path o
+      else acc.filter (fun it => q it.source) := by
+  unfold addSourceIfMissing
+  simp only
+  by_cases hany : acc.any (fun it => decide (it.source = normalize path)) = true
+  · simp only [hany, if_true]
+    split
+    · rename_i hq
+      have : (acc.filter (fun it => q it.source)).any
+          (fun it => decide (it.source = normalize path)) = true := by
+        simp only [List.any_eq_true, decide_eq_true_eq] at hany ⊢
+        obtain ⟨it, hit, e⟩ := hany
+        exact ⟨it, List.mem_filter.mpr ⟨hit, by rw [e]; exact hq⟩, e⟩
+      simp [this]
+    · rfl
+  · simp only [hany, Bool.false_eq_true, if_false, List.filter_append]
+    split
+    · rename_i hq
+      have : (acc.filter (fun it => q it.source)).any
+          (fun it => decide (it.source = normalize path)) = false := by
+        apply Bool.eq_false_iff.mpr
+        intro h
+        apply hany
+        simp only [List.any_eq_true, decide_eq_true_eq] at h ⊢
+        obtain ⟨it, hit, e⟩ := h
+        exact ⟨it, (List.mem_filter.mp hit).1, e⟩
+      simp [this, hq]
+    · rename_i hq
+      simp [hq]
+
+theorem collectDirLoop_filter (q : Path → Bool) (sb out : Path) (order : List Path) :
+    ∀ (acc wl : List Item), collectDirLoop sb out order acc = .ok wl →
+      collectDirLoop sb out (order.filter (fun s => q (normalize (normalize s))))
+        (acc.filter (fun it => q it.source)) = .ok (wl.filter (fun it => q it.source)) := by
+  induction order with
+  | nil =>
+    intro acc wl h
+    simp only [collectDirLoop, Except.ok.injEq] at h
+    subst h; rfl
+  | cons s rest ih =>
+    intro acc wl h
+    simp only [collectDirLoop] at h
+    split at h
+    · cases h
+    · rename_i rel hstrip
+      have := ih _ wl h
+      rw [addSource_filter] at this
+      by_cases hq : q (normalize (normalize s)) = true
+      · simp only [List.filter_cons, hq, if_true, collectDirLoop, hstrip]
+        simpa [hq] using this
+      · simp only [List.filter_cons, hq, Bool.false_eq_true, if_false]
+        simpa [hq] using this
+
+theorem inPlaceLoop_filter (q : Path → Bool) (order : List Path) :
+    ∀ (acc : List Item),
+      (order.filter (fun s => q (normalize s))).foldl (fun acc s => addSourceIfMissing acc s none)
+        (acc.filter (fun it => q it.source)) =
+      (order.foldl (fun acc s => addSourceIfMissing acc s none) acc).filter (fun it => q it.source) := by
+  induction order with
+  | nil => intro acc; rfl
+  | cons s rest ih =>
+    intro acc
+    simp only [List.foldl_cons]
+    rw [← ih, addSource_filter]
+    by_cases hq : q (normalize s) = true
+    · simp [List.filter_cons, hq]
+    · simp [List.filter_cons, hq]
+
+theorem isFile_prune (b : Backend) (t : Tree) (D : List Path) (p : Path)
+    (h : isFile b t p = false) : isFile b (pruneTree t D) p = false := by
+  unfold isFile at h ⊢
+  cases hb : b.fsys
+  · simp only [hb, Bool.false_eq_true, if_false, pruneTree_get] at h ⊢
+    by_cases hd : D.contains (normalize p) = true
+    · simp only [hd, if_true]
+    · simp only [hd, if_false]; exact h
+  · simp only [hb, if_true, pruneTree_get] at h ⊢
+    by_cases hp : p = []
+    · simp [hp]
+    · simp only [hp, if_false] at h ⊢
+      by_cases hd : D.contains (resolve b p) = true
+      · simp only [hd, if_true]
+      · simp only [hd, if_false]; exact h
 
 end DarkluaModel.C11
